@@ -90,7 +90,7 @@ Definition ids_step (q q' : ost) : Prop :=
   exists id, reg_ids (q_regs q') = reg_ids (q_regs q) ++ [id] /\ q_max q < id.
 
 Lemma ready_step_ids ev q : reg_ids (fst (ready_step ev q)) = reg_ids (q_regs q).
-Proof. destruct ev; cbn [ready_step]; repeat dmatch; cbn [fst]; rewrite ?reg_ids_rset, ?reg_ids_rerror; reflexivity. Qed.
+Proof. destruct ev; cbn [ready_step]; repeat dmatch; cbn [fst]; rewrite ?reg_ids_rset, ?reg_ids_rerror, ?reg_ids_rchan; reflexivity. Qed.
 
 Ltac dmh H := match type of H with context [match ?x with _ => _ end] => destruct x eqn:? end.
 
@@ -109,7 +109,8 @@ Proof. intros H. destruct x as [[r cbs] cmds]. destruct o; cbn [c09_step] in H.
   - left. inversion H; subst. reflexivity.
   - (* DoWork *) left. repeat dmh H; try discriminate; inversion H; subst; cbn [set_regs set_qclosed q_regs];
       try reflexivity;
-      match goal with Hr : ready_step ?ev ?qq = (?l, _) |- _ => pose proof (ready_step_ids ev qq) as X; rewrite Hr in X; exact X end. Qed.
+      match goal with Hr : ready_step ?ev ?qq = (?l, _) |- _ => pose proof (ready_step_ids ev qq) as X; rewrite Hr in X; exact X end.
+  - (* CloseHandle *) left. repeat dmh H; try discriminate; inversion H; subst; reflexivity. Qed.
 
 Lemma nodup_rlookup l : NoDup (reg_ids l) -> forall k r x, In (k, r, x) l -> rlookup k r l = Some x.
 Proof. induction l as [|[[k2 r2] y] l IH]; cbn; intros Hn k r x Hin; [tauto|].
@@ -153,16 +154,20 @@ Proof. intros Hc. destruct ev; try (left; cbn [on_event]; repeat dmatch; cbn [fs
 Lemma on_event_no_ctr_cb ev s r :
   is_ctr_event (DoWork (BEvent ev)) = false -> closed (fst (fst (on_event ev s))) = closed s -> uc r (snd (fst (on_event ev s))) = 0%nat.
 Proof. intros Hn Hc. destruct ev; try discriminate; cbn [on_event] in *; repeat dmatch; cbn [fst snd] in *; try reflexivity.
-  (* a client time-out that closes changes the closed flag *)
-  pose proof (close_all_closed s) as X. rewrite Heqp in X. cbn in X.
-  apply andb_prop in Heqb. destruct Heqb as [_ Hb]. apply Bool.negb_true_iff in Hb. congruence. Qed.
+  - (* a client time-out that closes changes the closed flag *)
+    pose proof (close_all_closed s) as X. rewrite Heqp in X. cbn in X.
+    apply andb_prop in Heqb. destruct Heqb as [_ Hb]. apply Bool.negb_true_iff in Hb. congruence.
+  - (* a channel endpoint error calls the error handler and reports images, no counter *)
+    unfold uc, count_unavail_ctr. rewrite filter_none; [reflexivity|]. intros c Hin. apply on_chan_error_cbs_shape in Hin.
+    destruct Hin as [->|(r' & i & ->)]; reflexivity. Qed.
 
 Lemma step_closed_same c s o : (match o with Close | DoWork _ => False | _ => True end) -> closed (fst (step c s o)) = closed s.
 Proof. intros H. destruct o; try (exfalso; exact H); cbn [step]; try reflexivity.
   - unfold do_add. repeat dmatch; cbn [fst]; rewrite ?setm_closed; auto.
   - apply do_find_frame.
   - apply do_drop_framed.
-  - rewrite do_peek_state. reflexivity. Qed.
+  - rewrite do_peek_state. reflexivity.
+  - unfold do_close_handle. repeat dmatch; reflexivity. Qed.
 
 Lemma closing_count c s o :
   inv s -> closed s = false -> closed (fst (step c s o)) = true -> is_ctr_event o = false ->
